@@ -593,6 +593,106 @@ def fill_loops(env, T, b, ctx):
     return out
 
 
+def counter_loops(env, T, b, ctx):
+    """Loops of body b that pull from the wrapped iterator once per round and count the elements pulled:
+        let mut i = 0;  while i < n { let Some(x) = iter.next() else { break };  ..;  i += 1 }
+    (any spelling: `loop { .. i += 1; if i == n { break } }`). The loop is left either because the counter reached n or on a
+    None of the wrapped iterator; hence `i < n` after the loop exactly when the wrapped iterator returned None.
+    Returns [(counter term, n term, loop blocks)]."""
+    ev = env.ev
+    out = []
+    for (h, L) in b.natural_loops():
+        inner = [(bi, t) for bi, t, c in b.calls() if bi in L and not c.indirect and c.trait == "std::iter::Iterator"
+                 and c.name == "next" and c.self_param is not None]
+        if len(inner) != 1:
+            continue
+        ib, it = inner[0]
+        ires = unref(ev.operand(ctx, {"k": "copy", "place": it["dest"]}))
+        incs = []
+        for x in L:
+            for st in b.blocks[x]["stmts"]:
+                if st["k"] == "assign" and st["rv"]["k"] == "binop" and st["rv"]["op"].startswith("Add") \
+                        and st["rv"]["b"].get("k") == "const" and st["rv"]["b"].get("int") == 1 \
+                        and st["rv"]["a"]["k"] in ("copy", "move") and not st["rv"]["a"]["place"]["p"]:
+                    incs.append((x, st))
+        for (xb, st) in incs:
+            c_loc, tmp = st["rv"]["a"]["place"]["l"], st["place"]["l"]
+            cnt = unref(ev.local(ctx, c_loc))
+            if not (cnt[0] == "phi" and any(o in cnt[1] for o in (("int", 0), ("int", 1)))):
+                continue
+            # the only assignment of the counter in the loop is the result of this addition
+            okc = True
+            for x in L:
+                for s2 in b.blocks[x]["stmts"]:
+                    if s2["k"] == "assign" and s2["place"]["l"] == c_loc and not s2["place"]["p"]:
+                        rv = s2["rv"]
+                        if not (rv["k"] == "use" and rv["op"].get("place", {}).get("l") == tmp):
+                            okc = False
+            if not okc:
+                continue
+            # the increment lies under the Some edge of the wrapped next, on every path from there back to the header
+            some_blocks = [x for x in L if any(f[0] == "is_some" and f[2] is True and f[1] == ires
+                                               for f in block_facts(ev, ctx, x))]
+            if xb not in some_blocks:
+                continue
+            first_some = [x for x in some_blocks if not any(p in some_blocks for p in b.preds()[x])]
+            if any(x != xb and b.paths_avoiding(x, {h}, {xb}) for x in first_some):
+                continue
+            # exits: counter reached n, or the wrapped iterator returned None
+            n_term = None
+            okx = True
+            for x in L:
+                for y in b.succ(x):
+                    if y in L or _only_panics_s(b, y):
+                        continue
+                    fs = block_facts(ev, ctx, y)
+                    if any(f[0] == "is_some" and f[2] is False and f[1] == ires for f in fs):
+                        continue
+                    nn = None
+                    for f in fs:
+                        if len(f) == 3 and f[0] == "le" and _same_cnt(unref(f[2]), cnt):
+                            nn = unref(f[1])
+                        if len(f) == 3 and f[0] == "eq":
+                            for p_, q_ in ((f[1], f[2]), (f[2], f[1])):
+                                if _same_cnt(unref(p_), cnt):
+                                    nn = unref(q_)
+                    if nn is None or (n_term is not None and nn != n_term):
+                        okx = False
+                    else:
+                        n_term = nn
+            if okx and n_term is not None:
+                out.append((cnt, n_term, L))
+    return out
+
+
+def _same_cnt(a, b):
+    """the loop counter as seen inside the loop (after the increment: cyclic + 1) and as the value of the local"""
+    if a == b:
+        return True
+    if b[0] == "phi" and a in b[1] and a[0] == "bin" and a[1] == "Add":
+        return True
+    return False
+
+
+def counters_with_callees(env, T, b, ctx):
+    out = list(counter_loops(env, T, b, ctx))
+    for bi, t, c in b.calls():
+        if b.blocks[bi]["cleanup"]:
+            continue
+        nctx = env.ev.callee_ctx(ctx, bi)
+        if nctx is not None:
+            out.extend(counter_loops(env, T, nctx.body, nctx))
+    return out
+
+
+def _counter_evidence(cloops, f):
+    """fact f is `counter < n` for one of the counting loops"""
+    for (cnt, n, _L) in cloops:
+        if f[0] == "lt" and len(f) == 3 and unref(f[1]) == cnt and unref(f[2]) == n:
+            return True
+    return False
+
+
 def _only_panics_s(b, s):
     seen = set()
     st = [s]
@@ -685,6 +785,8 @@ def rule_done(env, shared):
                                                        e.info["chain"][-1][2] if (trivial and e.info["chain"]) else e.ctx), f)
                      for f in fs):
                 why = "the fill loop pushed fewer elements than it had rounds: it was left on None"
+            elif any(_counter_evidence(counters_with_callees(env, T, b, env.ctx(b, sa, T.world)), f) for f in fs):
+                why = "the counting loop pulled fewer elements than it was to pull: it was left on None"
             elif any(f[0] in ("lt", "eq", "ne") and len(f) == 3 and "Iterator::collect" in fmt(f[1]) + fmt(f[2])
                      and ("len(" in fmt(f[1]) or "len(" in fmt(f[2])) for f in fs):
                 # fewer elements collected than requested; n != 0 must be known (else an empty request looks like the end)
@@ -695,6 +797,39 @@ def rule_done(env, shared):
                 else:
                     why = None
             seen.add(k)
+            if not why and not b.is_closure and not (b.info or {}).get("exported") \
+                    and (b.info or {}).get("container") in ("inherent", "free"):
+                # a crate-private helper that sets the flag on a condition over its parameters (`if pulled < reserved`): the
+                # evidence is what its callers pass — judged at every call site, in the caller's terms
+                sites = []
+                for (cb, csa) in T.universe:
+                    if cb.def_ == b.def_:
+                        continue
+                    for e2 in T.direct_events(cb, csa):
+                        if e2.kind == "atomic" and e2.body.def_ == e.body.def_ and e2.bb == e.bb and e2.info["chain"]:
+                            ch = e2.info["chain"]
+                            nxt = ch[1][0] if len(ch) > 1 else e2.body
+                            if nxt.def_ == b.def_:
+                                sites.append((cb, csa, e2))
+                okc = bool(sites)
+                for (cb, csa, e2) in sites:
+                    fs2 = env.event_facts(e2)
+                    cctx2 = env.ctx(cb, csa, T.world)
+                    w2 = None
+                    if any(f[0] == "is_some" and f[2] is False and "Iterator::next" in fmt(f[1]) for f in fs2):
+                        w2 = "None"
+                    elif any(_fill_evidence(fills_with_callees(env, T, cb, cctx2), f) for f in fs2):
+                        w2 = "fill"
+                    elif any(_counter_evidence(counters_with_callees(env, T, cb, cctx2), f) for f in fs2):
+                        w2 = "count"
+                    elif any(f[0] == "lt" and len(f) == 3 and "Iterator::collect" in fmt(f[1]) and "len(" in fmt(f[1]) for f in fs2) \
+                            and any(f[0] == "ne" and len(f) == 3 and f[2] == ("int", 0) for f in fs2):
+                        w2 = "collect"
+                    if w2 is None:
+                        okc = False
+                if okc:
+                    why = "at every call site of the helper: fewer elements were pulled than reserved only after a None of " \
+                          "the wrapped iterator (%d sites)" % len(sites)
             if why:
                 out.append(Ob("DONE-EVID", k, "ok", e.loc(), "end flag set on evidence: " + why, True))
             else:
